@@ -39,6 +39,8 @@ type rangeSite struct {
 var rangeSites = []*rangeSite{
 	{Pkg: ".", Func: "SubscriptionIDs", Expr: "c.subs", KeyType: "uint32"},
 	{Pkg: ".", Func: "notifyAllSubscriptionsOfError", Expr: "c.subs", KeyType: "uint32"},
+	{Pkg: "server", Func: "run", Expr: "publishQueue", KeyType: "uint32"},
+	{Pkg: "server", Func: "Close", Expr: "c.s", KeyType: "uint32"},
 }
 
 type gateSite struct {
@@ -49,6 +51,8 @@ type gateSite struct {
 
 var gateSites = []*gateSite{
 	{Pkg: ".", Func: "monitorSubscriptions", Chans: []string{"c.pausech", "c.resumech"}},
+	{Pkg: "server", Func: "run", Chans: []string{"s.NotifyChannel", "s.T.C", "s.ModifyChannel"}},
+	{Pkg: "server", Func: "run", Chans: []string{"s.Session.PublishRequests", "s.NotifyChannel", "s.T.C"}},
 }
 
 func die(format string, args ...any) {
@@ -74,6 +78,7 @@ func main() {
 	replace := map[string]string{}
 	swapped := 0
 	uniq := 0
+	tickers := 0
 	for _, pkg := range pkgs {
 		dir := filepath.Join(absRepo, pkg)
 		ents, err := os.ReadDir(dir)
@@ -129,6 +134,29 @@ func main() {
 				}
 				return true
 			})
+			if pkg == "server" {
+				ast.Inspect(f, func(n ast.Node) bool {
+					switch x := n.(type) {
+					case *ast.Field:
+						if st, ok := x.Type.(*ast.StarExpr); ok {
+							if sel, ok := st.X.(*ast.SelectorExpr); ok && sel.Sel.Name == "Ticker" {
+								if id, ok := sel.X.(*ast.Ident); ok && id.Name == "time" {
+									edits = append(edits, edit{off(id.Pos()), off(id.End()), "simhook"})
+									tickers++
+								}
+							}
+						}
+					case *ast.CallExpr:
+						if sel, ok := x.Fun.(*ast.SelectorExpr); ok && sel.Sel.Name == "NewTicker" {
+							if id, ok := sel.X.(*ast.Ident); ok && id.Name == "time" {
+								edits = append(edits, edit{off(id.Pos()), off(id.End()), "simhook"})
+								tickers++
+							}
+						}
+					}
+					return true
+				})
+			}
 			for _, d := range f.Decls {
 				fd, ok := d.(*ast.FuncDecl)
 				if !ok || fd.Body == nil {
@@ -229,6 +257,11 @@ func main() {
 			if importsSync {
 				outb = append(outb, []byte("\nvar _ sync.Locker\n")...)
 			}
+			for _, im := range f.Imports {
+				if im.Path.Value == `"time"` {
+					outb = append(outb, []byte("\nvar _ time.Duration\n")...)
+				}
+			}
 			if _, err := parser.ParseFile(token.NewFileSet(), path, outb, 0); err != nil {
 				die("rewritten %s does not parse: %v", path, err)
 			}
@@ -242,6 +275,9 @@ func main() {
 	}
 	if swapped < 20 {
 		die("only %d mutex/once fields found; expected at least 20 (did the code move?)", swapped)
+	}
+	if tickers < 2 {
+		die("server ticker field / NewTicker call not found (%d)", tickers)
 	}
 	for _, rs := range rangeSites {
 		if !rs.found {
